@@ -121,7 +121,7 @@ fn gen_c15(seed: u64, idx: usize, _tier: Tier) -> C15Scenario {
     let mut behav: Vec<Behav> = spec
         .cmd_files
         .iter()
-        .filter(|c| c.exec)
+        .filter(|c| c.exec && !c.command.ends_with("__decoy"))
         .map(|c| {
             let k = rng.below(5);
             let outs = (0..k)
@@ -130,7 +130,7 @@ fn gen_c15(seed: u64, idx: usize, _tier: Tier) -> C15Scenario {
                     OutStep { fd, hex: hex(format!("{}@{} fd{} #{}\n", c.command, c.target, fd, i).as_bytes()), pause_ms: 0 }
                 })
                 .collect();
-            Behav { command: c.command.clone(), target: c.target.clone(), outs, code: 0 }
+            Behav { command: c.command.clone(), target: c.target.clone(), outs, code: 0, exit_pause_ms: 0 }
         })
         .collect();
     if rng.chance(1, 4) && !behav.is_empty() {
@@ -435,7 +435,7 @@ fn gen_c20(seed: u64, idx: usize, tier: Tier) -> C20Scenario {
                 OutStep { fd, hex: hex(s.as_bytes()), pause_ms: 0 }
             })
             .collect();
-        script.behav.push(Behav { command: cf.command.clone(), target: cf.target.clone(), outs, code: 0 });
+        script.behav.push(Behav { command: cf.command.clone(), target: cf.target.clone(), outs, code: 0, exit_pause_ms: 0 });
     }
     script.strategy = Strategy::Uniform;
     script.sched_seed = rng.next_u64();
